@@ -125,6 +125,17 @@ Theorem C14_splitdown_row_exists : forall (r : row) (i : Z) (part : list Z) (n :
                    (zrange n 0%Z) = Ok out.
 Proof. intros r i part n. exact (split_row_ok r i (VStr part) n). Qed.
 
+(* the whole operator: when splitdown_model runs to the end the header is passed through and every emitted data row comes from a
+   source row r: one of the parts of r's split cell at the split field i, r's own cells at every other header position *)
+Theorem C14_splitdown_frame : forall (field : val) (sep : Z) (hdr : row) (rows : list row) (outt : table),
+  splitdown_model field sep (hdr :: rows) = (outt, None) ->
+  exists i o, outt = hdr :: o /\
+    Forall (fun out => exists r, In r rows /\
+      exists s part, py_nth r i = Some (VStr s) /\ In part (split_on sep [] s) /\ length out = length hdr /\
+        forall k, (k < length hdr)%nat ->
+          nth_error out k = if Z.eqb (Z.of_nat k) i then Some (VStr part) else py_nth r (Z.of_nat k)) o.
+Proof. exact splitdown_model_frame. Qed.
+
 (* melt emits the same number of rows for every input row when no cell is missing (one per variable) *)
 Theorem C14_rows_times_variables : forall (A B : Type) (f : A -> list B) (l : list A) k,
   (forall x, In x l -> length (f x) = k) -> length (flat_map f l) = (length l * k)%nat.
@@ -192,3 +203,4 @@ Print Assumptions C14_split_parts_have_no_separator.
 Print Assumptions C14_split_part_count.
 Print Assumptions C14_splitdown_row_frame.
 Print Assumptions C14_splitdown_row_exists.
+Print Assumptions C14_splitdown_frame.
